@@ -58,8 +58,9 @@ def invariant_of(msg):
     return "panic"
 
 
-def run_children(jobs, workdir, par=16):
-    """jobs: list of dicts(scheduler, seed, iters, threads, ops). Returns list of (job, result|None, rc)."""
+def run_children(jobs, workdir, par=16, timeout=None):
+    """jobs: list of dicts(scheduler, seed, iters, threads, ops). Returns list of (job, result|None, rc).
+    A child that exceeds `timeout` seconds is killed and reported with rc = "hung"."""
     procs = []
     results = []
     pending = list(enumerate(jobs))
@@ -73,12 +74,17 @@ def run_children(jobs, workdir, par=16):
             cmd = [BIN, "--scheduler", j["scheduler"], "--seed", str(j["seed"]), "--iters", str(j["iters"]),
                    "--threads", str(j["threads"]), "--ops", str(j["ops"]), "--out", out, "--schedule-dir", sdir]
             p = subprocess.Popen(cmd, stdout=subprocess.PIPE, stderr=subprocess.PIPE, text=True)
-            running.append((idx, j, p, out, sdir))
+            running.append((idx, j, p, out, sdir, time.time()))
         still = []
-        for (idx, j, p, out, sdir) in running:
+        for (idx, j, p, out, sdir, started) in running:
             rc = p.poll()
             if rc is None:
-                still.append((idx, j, p, out, sdir))
+                if timeout and time.time() - started > timeout:
+                    p.kill()
+                    p.communicate()
+                    results.append((idx, j, None, "hung", sdir, ""))
+                    continue
+                still.append((idx, j, p, out, sdir, started))
                 continue
             so, se = p.communicate()
             res = None
@@ -239,7 +245,20 @@ def main():
         jobs.append(dict(scheduler="random" if k % 2 == 0 else "pct", seed=v & 0x7FFFFFFFFFFFFFFF, iters=iters,
                          threads=[2, 3, 4][k % 3], ops=[1, 2, 3, 4][(k // 3) % 4]))
     par = os.cpu_count() or 4
-    results = run_children(jobs, workdir, par)
+    # a healthy child needs about 5 ms per execution; one that is far beyond that is not making progress
+    child_timeout = max(90.0, iters * 0.05)
+    results = run_children(jobs, workdir, par, timeout=child_timeout)
+    hung = [r for r in results if r[3] == "hung"]
+    if hung:
+        # Some caller thread busy-waits on state the simulated scheduler does not control (e.g. a hand-rolled
+        # spin lock replacing once_cell): under shuttle's cooperative scheduling nobody else can run, so the
+        # shuttle half cannot decide anything for this tree. That is not a verdict. Fall back to the Miri half,
+        # whose preemptive scheduler and real atomics can, even in the quick tier.
+        print("note: %d of %d shuttle children made no progress within %.0f s (uncontrolled busy-waiting in the code under test); "
+              "deciding this tree with the Miri half instead" % (len(hung), len(results), child_timeout))
+        results = [r for r in results if r[3] != "hung"]
+        if miri_n == 0:
+            miri_n = 4
     executions = steps = ops = contended = entries = overlap = 0
     digests = set()
     cover = set()
@@ -303,7 +322,7 @@ def main():
 
     wall = time.time() - t0
     missing = []
-    if exit_code == 0:
+    if exit_code == 0 and not hung:
         if contended == 0:
             missing.append("contended_first_use")
         if overlap == 0:
@@ -333,6 +352,7 @@ def main():
                            "stub": ["once_cell::sync::Lazy -> shuttle::lazy_static::Lazy (shuttle Once + per-execution storage) in the shuttle half"]},
             "miri": [dict(seed=r["seed"], rc=r["rc"], wall_s=round(r["wall_s"], 1)) for r in miri_runs],
             "missing_probes": missing,
+            "shuttle_children_without_progress": len(hung),
             "simulated_time_note": "no clock in the crate; simulated time is the number of scheduling decisions (sim_steps)",
             "known_findings_seen": [],
         },
